@@ -88,6 +88,17 @@ class Check(object):
         self.queries = 0
         repo.load()
         print('[%s] tier=%s repo=%s' % (prop, self.tier, repo.REPO), flush=True)
+        # the pandas model is diffed against real pandas on a fixed script before it is trusted
+        try:
+            r = subprocess.run([PY if os.path.exists(PY) else sys.executable, '-W', 'ignore',
+                                os.path.join(ROOT, 'scripts', 'selfcheck_pdmodel.py')],
+                               capture_output=True, text=True, timeout=300)
+            self.pdmodel_selfcheck = r.stdout.strip().splitlines()[-1] if r.stdout.strip() else 'no output'
+            if r.returncode != 0:
+                self.inconclusive.append('pandas model differs from real pandas: %s' % r.stdout[-500:])
+        except Exception as e:
+            self.pdmodel_selfcheck = 'not run: %s' % e
+            self.inconclusive.append('pandas model selfcheck could not run: %s' % e)
 
     # ---- E2 stage ----
     def _skip(self, name):
@@ -240,6 +251,7 @@ class Check(object):
             'outside_bounds': self.outside,
             'stages': self.stages,
             'known_findings_hit': [k[0] for k in known_hits],
+            'pdmodel_selfcheck': getattr(self, 'pdmodel_selfcheck', None),
             'inconclusive': self.inconclusive,
         }
         if extra_coverage:
